@@ -5,10 +5,13 @@ import (
 	"sort"
 	"strings"
 	"sync"
+	"time"
 
 	"github.com/trustbloc/sidetree-core-go/pkg/api/operation"
 	"github.com/trustbloc/sidetree-core-go/pkg/api/protocol"
 	"github.com/trustbloc/sidetree-core-go/pkg/api/txn"
+	"github.com/trustbloc/sidetree-core-go/pkg/batch"
+	"github.com/trustbloc/sidetree-core-go/pkg/batch/opqueue"
 	"github.com/trustbloc/sidetree-core-go/pkg/dochandler"
 	"github.com/trustbloc/sidetree-core-go/pkg/observer"
 	"github.com/trustbloc/sidetree-core-go/pkg/processor"
@@ -80,7 +83,7 @@ func (s *stubProvider) GetTxnOperations(*txn.SidetreeTxn) ([]*operation.Anchored
 
 func c15(r *hx.Run) {
 	fx.Quiet()
-	r.Rule = "every sequence of <=4 (thorough 5) transactions over {ok(A: s1,s2), ok(B: s2,s3), bad anchor string, missing CAS content, count mismatch, duplicate suffix across index files, unknown namespace, unknown protocol version} x store-failure position {none, 1st..3rd Put} x unpublished-store failure x delivery {one notification per transaction, all in one} is processed by the real Observer + TxnProcessor + OperationProvider; the harness store must hold exactly one operation per suffix of every stored transaction, stamped with that transaction's time, number, protocol version, canonical and equivalent references, written by a single Put; failing transactions contribute nothing and do not stop later ones. Intake: a real DocumentHandler with queue / unpublished-store failures on the k-th call leaves both untouched after any refused or failed request. Non-trivial: sequences containing at least one failing element followed by a valid transaction, or a fault."
+	r.Rule = "every sequence of <=4 (thorough 5) transactions over {ok(A: s1,s2), ok(B: s2,s3), bad anchor string, missing CAS content, count mismatch, duplicate suffix across index files, unknown namespace, unknown protocol version} x store-failure position {none, 1st..3rd Put} x unpublished-store failure x delivery {one notification per transaction, all in one} is processed by the real Observer + TxnProcessor + OperationProvider; the harness store must hold exactly one operation per suffix of every stored transaction, stamped with that transaction's time, number, protocol version, canonical and equivalent references, written by a single Put; failing transactions contribute nothing and do not stop later ones. Intake: a real DocumentHandler with queue / unpublished-store failures on the k-th call leaves both untouched after any refused or failed request; the same through the real batch.Writer over a real queue, stopped before a chosen step and with the queue failing at a chosen Add (a submission refused by a stopped writer must not be in the queue). Non-trivial: sequences containing at least one failing element followed by a valid transaction, or a fault."
 	const ns = "did:sidetree"
 	p := fx.DefaultProtocol()
 	p.GenesisTime = 10
@@ -334,6 +337,12 @@ func c15(r *hx.Run) {
 		"the observer goroutine is synchronised with a sentinel transaction; real time is not used as an oracle")
 }
 
+type intakeReq struct {
+	name  string
+	req   []byte
+	valid bool
+}
+
 type failingWriter struct {
 	mu     sync.Mutex
 	n      int
@@ -414,11 +423,7 @@ func c15Intake(r *hx.Run, p protocol.Protocol) {
 		}
 		return nil, fmt.Errorf("not found")
 	}
-	reqs := []struct {
-		name  string
-		req   []byte
-		valid bool
-	}{
+	reqs := []intakeReq{
 		{"create-valid", other.Req["C"], true},
 		{"update-valid", pool.Get("U01").Req, true},
 		{"recover-valid", pool.Get("R01").Req, true},
@@ -431,6 +436,7 @@ func c15Intake(r *hx.Run, p protocol.Protocol) {
 		{"create-invalid-delta", fx.NewPool(fx.Ed25519, fx.SHA256, "invalid").Get("C").Req, false},
 		{"create-hash-mismatch", pool.Get("C~h").Req, false},
 	}
+	c15IntakeRealWriter(r, ns, client, func() *processor.OperationProcessor { return processor.New("verif", storeFunc(storeFor), client) }, append(append([]intakeReq{}, reqs[:5]...), reqs[8]))
 	allTypes := []operation.Type{operation.TypeCreate, operation.TypeUpdate, operation.TypeRecover, operation.TypeDeactivate}
 	for seqLen := 1; seqLen <= 2; seqLen++ {
 		tuples(len(reqs), seqLen, func(idx []int) {
@@ -473,6 +479,91 @@ func c15Intake(r *hx.Run, p protocol.Protocol) {
 								}
 							}
 						}
+						r.State()
+					}
+				}
+			}
+		})
+	}
+}
+
+// failQueue is a real MemQueue whose n-th Add fails.
+type failQueue struct {
+	opqueue.MemQueue
+	n, failAt int
+}
+
+func (q *failQueue) Add(op *operation.QueuedOperation, pv uint64) (uint, error) {
+	q.n++
+	if q.n == q.failAt {
+		return 0, fmt.Errorf("injected queue failure")
+	}
+	return q.MemQueue.Add(op, pv)
+}
+
+func queueContent(q *failQueue) string {
+	items, _ := q.Peek(q.Len())
+	var out []string
+	for _, it := range items {
+		out = append(out, fmt.Sprintf("%s:%s:%d", it.Type, it.UniqueSuffix, it.ProtocolVersion))
+	}
+	return strings.Join(out, ";")
+}
+
+// c15IntakeRealWriter submits through the real batch.Writer (never started: no timers) over a real queue; the writer is
+// stopped before a chosen step and the queue fails at a chosen Add. A refused submission must not be in the queue.
+func c15IntakeRealWriter(r *hx.Run, ns string, client protocol.Client, newProc func() *processor.OperationProcessor, reqs []intakeReq) {
+	allTypes := []operation.Type{operation.TypeCreate, operation.TypeUpdate, operation.TypeRecover, operation.TypeDeactivate}
+	for seqLen := 1; seqLen <= 2; seqLen++ {
+		tuples(len(reqs), seqLen, func(idx []int) {
+			for stopAt := 0; stopAt <= seqLen; stopAt++ {
+				for failAdd := 0; failAdd <= seqLen; failAdd++ {
+					for _, withUnpub := range []bool{true, false} {
+						var names []string
+						for _, i := range idx {
+							names = append(names, reqs[i].name)
+						}
+						caseID := fmt.Sprintf("intake-writer|%s|stopAt=%d|failAdd=%d|unpub=%v", strings.Join(names, ","), stopAt, failAdd, withUnpub)
+						if !r.Want(caseID) {
+							continue
+						}
+						q := &failQueue{failAt: failAdd}
+						w, err := batch.New(ns, &c16Ctx{pc: client, anchor: &c16Anchor{}, queue: q}, batch.WithBatchTimeout(24*time.Hour), batch.WithMonitorInterval(24*time.Hour))
+						if err != nil {
+							panic(err)
+						}
+						u := &modelUnpub{ops: map[string]int{}}
+						var opts []dochandler.Option
+						if withUnpub {
+							opts = append(opts, dochandler.WithUnpublishedOperationStore(u, allTypes))
+						}
+						h := dochandler.New(ns, nil, client, w, newProc(), fx.Metrics, opts...)
+						accepted := 0
+						for step, i := range idx {
+							if stopAt == step+1 {
+								w.Stop()
+							}
+							beforeQ, beforeU := queueContent(q), u.snapshot()
+							_, err := h.ProcessOperation(reqs[i].req, 10)
+							r.Eval()
+							r.Trans(1)
+							afterQ, afterU := queueContent(q), u.snapshot()
+							if err != nil {
+								if afterQ != beforeQ || afterU != beforeU {
+									r.Violation("refused-request-leaves-trace:real-writer", caseID, fmt.Sprintf("step %d (%s) failed with %v but queue %q->%q unpublished %q->%q", step, reqs[i].name, err, beforeQ, afterQ, beforeU, afterU), nil)
+								}
+								r.Nontrivial(caseID)
+							} else {
+								accepted++
+								if w.Stopped() {
+									r.Violation("stopped-writer-accepts", caseID, fmt.Sprintf("step %d (%s) was accepted by a stopped writer", step, reqs[i].name), nil)
+								}
+								if int(q.Len()) != accepted {
+									r.Violation("accepted-request-not-queued-once:real-writer", caseID, fmt.Sprintf("step %d (%s) accepted: queue %q -> %q", step, reqs[i].name, beforeQ, afterQ), nil)
+								}
+							}
+						}
+						r.Outcome(fmt.Sprintf("real writer: accepted %d of %d", accepted, len(idx)))
 						r.State()
 					}
 				}
